@@ -2273,17 +2273,11 @@ impl Archive {
             let sector_end = sector_offsets[i + 1] as u64;
 
             if sector_end < sector_start {
-                // This can happen with corrupted or malformed archives
-                // Try to recover by using the expected sector size
-                log::warn!(
-                    "Invalid sector offsets detected: start={sector_start}, end={sector_end} for sector {i}. Attempting recovery."
-                );
-
-                // Skip this sector and continue with zeros
-                let remaining = file_info.file_size as usize - decompressed_data.len();
-                let expected_size = remaining.min(sector_size);
-                decompressed_data.extend(vec![0u8; expected_size]);
-                continue;
+                // This can happen with corrupted or malformed archives. Substituting
+                // zeros would silently return corrupted content, so report it.
+                return Err(Error::invalid_format(format!(
+                    "Invalid sector offsets: start={sector_start}, end={sector_end} for sector {i}"
+                )));
             }
 
             let sector_size_compressed = (sector_end - sector_start) as usize;
@@ -2336,34 +2330,19 @@ impl Archive {
                     // Check if this is IMPLODE compression (no compression type prefix)
                     if file_info.is_implode() {
                         // IMPLODE compression - no compression type byte prefix
-                        match compression::decompress(sector_data, 0x08, expected_size) {
-                            Ok(decompressed) => decompressed,
-                            Err(e) => {
-                                log::warn!(
-                                    "Failed to decompress IMPLODE sector {i}: {e}. Using zeros."
-                                );
-                                vec![0u8; expected_size]
-                            }
-                        }
+                        // A sector that cannot be decompressed is an error: returning
+                        // zeros instead would hand corrupted content to the caller.
+                        compression::decompress(sector_data, 0x08, expected_size)?
                     } else {
                         // COMPRESS flag - has compression type byte prefix
                         let compression_type = sector_data[0];
                         let compressed_data = &sector_data[1..];
-                        match compression::decompress(
-                            compressed_data,
-                            compression_type,
-                            expected_size,
-                        ) {
-                            Ok(decompressed) => decompressed,
-                            Err(e) => {
-                                log::warn!("Failed to decompress sector {i}: {e}. Using zeros.");
-                                vec![0u8; expected_size]
-                            }
-                        }
+                        compression::decompress(compressed_data, compression_type, expected_size)?
                     }
                 } else {
-                    log::warn!("Empty compressed sector data for sector {i}. Using zeros.");
-                    vec![0u8; expected_size]
+                    return Err(Error::compression(format!(
+                        "Empty compressed sector data for sector {i}"
+                    )));
                 }
             } else {
                 // Sector is not compressed
